@@ -3,7 +3,8 @@
 ID="$1"; B="$2"; NAME="$3"; shift 3
 CHECKS="$@"; [ -n "$CHECKS" ] || CHECKS="$ID"
 D=/verif/seeded/$NAME
-mkdir -p "$D" && cp /tmp/agents/out-$ID/$B/* "$D/" || exit 3
+SRC="${INGEST_FROM:-/tmp/agents/out-$ID}"
+mkdir -p "$D" && cp "$SRC"/$B/* "$D/" || exit 3
 for c in $CHECKS; do
   out=$(/verif/tools/try_seeded.sh "$D" "$c" 2>&1)
   rc=$(echo "$out" | grep -a "try_seeded:" | sed 's/.*exit //')
